@@ -287,12 +287,15 @@ class C12(Check):
             return sx([7, c["cap"], LRU_KEYS, ops, o])
         yl = {}
         calls = []
+        groups = {}            # the matcher is a function of (system id, preceding-data version)
         for (tree, pd, pv, sysid) in snapshots(c):
             r, y, m = yamlfs.oracle_dicts(tree, c["engine"], sysid, pd)
             yl.update(y)
-            calls.append([sysid, pv, yamlfs.listing(tree), yamlfs.enc_render(r), yamlfs.enc_match(m)])
+            groups.setdefault((sysid, pv), {}).update(m)
+            calls.append([sysid, pv, yamlfs.listing(tree), yamlfs.enc_render(r)])
         cfg = [c["allow_empty"], c["ml"], c["ms"], c["engine"]]
-        return sx([c.get("variants", CURRENT_VARIANTS), cfg, c["cache_size"], yamlfs.enc_yload(yl), calls, canon_versions(o)])
+        gs = [[k[0], k[1], yamlfs.enc_match(m)] for k, m in groups.items()]
+        return sx([c.get("variants", CURRENT_VARIANTS), cfg, c["cache_size"], yamlfs.enc_yload(yl), gs, calls, canon_versions(o)])
 
     def evaluate(self, cases):
         res = super().evaluate(cases)
